@@ -87,7 +87,14 @@ func (c *Ctx) Check(ok bool, rule, inst, construct, held, violated string) bool 
 
 // importFrom evaluates another property's rules on the same program and adopts the
 // obligations whose rule id has one of the given prefixes, relabelled under rule.
+var importDepth int
+
 func (c *Ctx) importFrom(check func(*Ctx), rule string, prefixes ...string) {
+	if importDepth > 4 {
+		panic("import cycle between property checks (importFrom nested more than 4 deep) at rule " + rule)
+	}
+	importDepth++
+	defer func() { importDepth-- }()
 	sub := NewCtx(c.P, c.Prop, c.Tier)
 	check(sub)
 	n := 0
